@@ -113,18 +113,32 @@ def main():
         cases.append(lit); meta.append(m)
 
     N = 120 if ck.tier == 'quick' else 1500
+
+    def warm(S, it):
+        """bounds is a pure observation: on every other iteration other read-only queries are evaluated on the
+        very same object first (centroid before bounds, ...); the answer must be that of a fresh object"""
+        if it % 2 == 0:
+            return S
+        qs = [lambda: S.centroid, lambda: S.to_wkt(), lambda: hash(S), lambda: S.bounding_coords(),
+              lambda: S.contains_coordinate(S.centroid), lambda: S.circumscribing_circle(), lambda: S.convex_hull]
+        rng.shuffle(qs)
+        for q in qs[: 2 + it % 4]:
+            guarded(q)
+        guarded(lambda: S.centroid)
+        ck.count('bounds-read-after-other-queries')
+        return S
     # ---------------- A. bounds of vertex shapes, rectangles, unions (proved; seeded random)
     for it in range(N):
         n = rng.choice([1, 2, 3, 3, 4, 5, 8, 13])
         # polygon
         pv = star_polygon(rng, max(3, n))
-        P = GeoPolygon([C2(p) for p in pv])
+        P = warm(GeoPolygon([C2(p) for p in pv]), it)
         add(f'KBnd {listlit([ptl(p) for p in pv])} {reslit(guarded(lambda: ib(P.bounds)), bndlit)}', {'k': 'bounds', 'kind': 'polygon', 'vs': pv})
         # linestring (>= 2 vertices), with repeated vertices and retracing
         lv = rand_pts(rng, max(2, n))
         if rng.random() < 0.3:
             lv = lv + lv[::-1]
-        L = GeoLineString([C2(p) for p in lv])
+        L = warm(GeoLineString([C2(p) for p in lv]), it)
         add(f'KBnd {listlit([ptl(p) for p in lv])} {reslit(guarded(lambda: ib(L.bounds)), bndlit)}', {'k': 'bounds', 'kind': 'linestring', 'vs': lv})
         pt = rand_pts(rng, 1)[0]
         G = GeoPoint(C2(pt))
@@ -132,7 +146,7 @@ def main():
         # box
         a, b = rand_pts(rng, 2)
         nw, se = (min(a[0], b[0]), max(a[1], b[1])), (max(a[0], b[0]), min(a[1], b[1]))
-        B = GeoBox(C2(nw), C2(se))
+        B = warm(GeoBox(C2(nw), C2(se)), it)
         add(f'KBox {ptl(nw)} {ptl(se)} {bndlit(ib(B.bounds))}', {'k': 'boxbounds', 'nw': nw, 'se': se})
         add(f'KBnd {listlit([ptl(p) for p in [nw, (nw[0], se[1]), se, (se[0], nw[1]), nw]])} {reslit(("Ok", ib(B.bounds)), bndlit)}',
             {'k': 'boxcorners', 'nw': nw, 'se': se})
@@ -158,6 +172,9 @@ def main():
             s.set_dt(mk_dt(('i', i_)))
         groups.append(('track', Track(tm), tm))
         for kind, M, members in groups:
+            if it % 4 == 3:
+                guarded(lambda: M.centroid)      # collection-level centroid before collection-level bounds
+                guarded(lambda: M.convex_hull() if callable(M.convex_hull) else M.convex_hull)
             bs = [ib(m.bounds) for m in members]
             add(f'KUnion {listlit([bndlit(x) for x in bs])} {reslit(guarded(lambda: ib(M.bounds)), bndlit)}', {'k': 'union', 'kind': kind, 'bs': bs})
             nontriv.add((kind, tuple(bs)))
@@ -316,6 +333,52 @@ def main():
                 welzl_bad.append({'polygon': pts, 'seed': seed, 'excess_over_radius': ex})
         if rads and (max(rads) - min(rads)) / max(rads) > 1e-6:
             welzl_bad.append({'polygon': pts, 'seed_spread': (max(rads) - min(rads)) / max(rads)})
+    # D.3b small polygons (about 0.05-0.08 degrees across, mid and high latitudes) whose smallest enclosing circle is
+    #      fixed by THREE vertices placed, with the harness's own geodesy, on a circle of known radius d around a known
+    #      centre (an acute triple: that circle IS the smallest enclosing one).  Enclosure, minimality (radius = d) and
+    #      RNG-seed independence to 1e-6; measured on the pinned tree: 1.1e-7 / 1.5e-7.
+    def own_direct(lon, lat, brg, d):
+        p1, l1, t, a = math.radians(lat), math.radians(lon), math.radians(brg), d / R_EARTH
+        p2 = math.asin(math.sin(p1) * math.cos(a) + math.cos(p1) * math.sin(a) * math.cos(t))
+        l2 = l1 + math.atan2(math.sin(t) * math.sin(a) * math.cos(p1), math.cos(a) - math.sin(p1) * math.sin(p2))
+        return (math.degrees(l2), math.degrees(p2))
+
+    def own_hav(a, b):
+        p1, p2 = math.radians(a[1]), math.radians(b[1])
+        h = math.sin((p2 - p1) / 2) ** 2 + math.cos(p1) * math.cos(p2) * math.sin(math.radians(b[0] - a[0]) / 2) ** 2
+        return 2 * R_EARTH * math.asin(math.sqrt(h))
+    fx2 = pyrandom.Random(20261001)
+    small_worst = [0.0, 0.0]
+    for i in range(16):
+        lat, lon = [35, 50, 62, -45, -58, 20, 70, -10][i % 8], fx2.uniform(-170, 170)
+        d = fx2.uniform(2500, 4500)
+        base = fx2.uniform(0, 360)
+        brs = [base + fx2.uniform(-15, 15), base + 120 + fx2.uniform(-15, 15), base + 240 + fx2.uniform(-15, 15)]
+        pts = [own_direct(lon, lat, b, d) for b in brs]
+        if i % 2:
+            pts.insert(2, own_direct(lon, lat, (brs[1] + brs[2]) / 2, d * 0.6))      # a further vertex strictly inside
+        P = GeoPolygon([Coordinate(*p) for p in pts])
+        rads = []
+        for seed in range(8):
+            pyrandom.seed(seed)
+            r_ = guarded(lambda: P.circumscribing_circle())
+            corpus_n += 1
+            if r_[0] != 'Ok':
+                welzl_bad.append({'polygon': pts, 'seed': seed, 'raised': r_[1]}); continue
+            cc = r_[1]
+            c_ = (cc.center.longitude, cc.center.latitude)
+            ex = max(own_hav(v, c_) - cc.radius for v in pts) / cc.radius
+            mn = abs(cc.radius - d) / d
+            small_worst = [max(small_worst[0], ex), max(small_worst[1], mn)]
+            rads.append(cc.radius)
+            if ex > 1e-6:
+                welzl_bad.append({'polygon': pts, 'seed': seed, 'excess_over_radius': ex, 'corpus': 'small acute triples'})
+            if mn > 1e-6:
+                welzl_bad.append({'polygon': pts, 'seed': seed, 'radius': cc.radius, 'smallest_enclosing_radius': d,
+                                  'relative_difference': mn, 'corpus': 'small acute triples'})
+        if rads and (max(rads) - min(rads)) / max(rads) > 1e-6:
+            welzl_bad.append({'polygon': pts, 'seed_spread': (max(rads) - min(rads)) / max(rads), 'corpus': 'small acute triples'})
+    ck.cov['welzl_small_polygons_worst'] = {'excess_over_radius': small_worst[0], 'radius_vs_smallest': small_worst[1]}
     ck.cov['fixed_corpus_cases'] = corpus_n
     ck.cov['welzl_corpus_disagreements'] = welzl_bad[:10]
 
